@@ -202,6 +202,22 @@ def release_generated_classes():
                 c.__qualname__ = q
 
 
+def cold():
+    """Interpreter state as in a process that has not parsed anything yet: the pristine snapshot plus none of the lazily
+    built per-class caches ('@locals': macros local to an environment, '@arguments': compiled argument templates).  Called
+    at the start of every task, so that a task's observations are a function of the task."""
+    n = reset()
+    for cls in _classes():
+        d = cls.__dict__
+        for k in ('@locals', '@arguments'):
+            if k in d:
+                try:
+                    delattr(cls, k)
+                except Exception:
+                    pass
+    return n
+
+
 def reset():
     """Restore interpreter-wide state to the pristine snapshot (call between cases); the generator of automatic
     identifiers is restarted too, so that two runs of the same case spell generated ids identically."""
